@@ -87,6 +87,13 @@ UNSUPPORTED_SEEDS = [
     "constraints{ r1 is CCO } break bond(c1,h1) increase number of radical(c1) "
     "increase number of radical(h1)}",
 ]
+# short rules with each constraint kind last in the block (their truncations
+# end where a chain rule of the grammar may look for one more link)
+for _c in ('a.formula is C2H6O', 'a.size > 2', 'a.charge = 0', 'a is cyclic',
+           'a contains >1 of q', 'a.size + a.size < 9', '! a is aromatic'):
+    UNSUPPORTED_SEEDS.append(
+        "rule q{ reactant a{ C labeled c } constraints{ %s } increase number "
+        "of radical(c) decrease number of radical(c)}" % _c)
 # nesting: the work must stay proportional to the text (a grammar whose
 # alternatives re-try the same nesting level doubles it per level)
 for _d in (4, 8, 12, 16):
